@@ -4,6 +4,13 @@ func w(n int, prefix, plat string, sc uint32) workerDecl {
 	return workerDecl{name: "W:" + string(rune('0'+n)), host: "w" + string(rune('0'+n)), prefix: prefix, platform: plat, sc: sc}
 }
 
+// wr: a worker of the root P1 queue whose ID also names its rack.
+func wr(n int, rack string) workerDecl {
+	d := w(n, "", "P1", 0)
+	d.extra = map[string]string{"rack": rack}
+	return d
+}
+
 func configs() []*config {
 	onePQ := func(limits ...int) []pqDecl {
 		return []pqDecl{{prefix: "", platform: "P1", sizeClasses: []uint32{0}, limits: limits}}
@@ -384,20 +391,41 @@ func configs() []*config {
 			probes: []string{"", "a", "a/b", "a/c", "x/y"},
 		},
 		{
-			// Drains and terminating workers.
+			// Drains and terminating workers. Worker IDs {host, rack}; the
+			// patterns have two fields, one field (d:all: none).
 			name: "c05-drain", props: []string{"C05", "C04"},
 			inspect:     []string{"inspect"},
+			predeclared: onePQ(),
+			workers:     []workerDecl{wr(1, "r1"), wr(2, "r1")},
+			execs: []execDecl{
+				{name: "x1", platform: "P1", corr: "I1", dur: 1},
+			},
+			drains: []drainDecl{
+				{name: "d:w1", platform: "P1", pattern: map[string]string{"host": "w1", "rack": "r1"}},
+				{name: "d:all", platform: "P1", pattern: map[string]string{}},
+			},
+			terms: []termDecl{{name: "term:w2", pattern: map[string]string{"host": "w2"}}},
+			depth: map[string]int{"quick": 5, "thorough": 7}, shards: 4,
+			probes: []string{""},
+		},
+		{
+			// Tasks the scheduler completes WITHOUT the worker
+			// (KillOperations) and the worker's periodic non-blocking
+			// "still executing" Synchronize: the scheduler considers the
+			// worker idle, the worker does not know yet; its report is
+			// answered at once - with the next queued task, unless the
+			// worker matches a drain or is terminating. Started from: W:1
+			// executes an x1, a second x1 is queued.
+			name: "c05-drain-kill", props: []string{"C05", "C04"}, exec: true, kill: true,
 			predeclared: onePQ(),
 			workers:     []workerDecl{w(1, "", "P1", 0), w(2, "", "P1", 0)},
 			execs: []execDecl{
 				{name: "x1", platform: "P1", corr: "I1", dur: 1},
 			},
-			drains: []drainDecl{
-				{name: "d:w1", platform: "P1", pattern: map[string]string{"host": "w1"}},
-				{name: "d:all", platform: "P1", pattern: map[string]string{}},
-			},
-			terms: []termDecl{{name: "term:w2", pattern: map[string]string{"host": "w2"}}},
-			depth: map[string]int{"quick": 5, "thorough": 7}, shards: 4,
+			drains: []drainDecl{{name: "d:w1", platform: "P1", pattern: map[string]string{"host": "w1"}}},
+			terms:  []termDecl{{name: "term:w1", pattern: map[string]string{"host": "w1"}}},
+			prefix: []string{"W:1", "x1", "x1"},
+			depth:  map[string]int{"quick": 4, "thorough": 6}, shards: 4,
 			probes: []string{""},
 		},
 		{
@@ -440,6 +468,49 @@ func configs() []*config {
 			},
 			maxTicks: 1,
 			depth:    map[string]int{"quick": 5, "thorough": 7}, shards: 4,
+		},
+		{
+			// An invocation that has operations queued DIRECTLY and a queued
+			// child invocation at the same time (paths [], [I1], [I1,X],
+			// [I2]), negative priorities: I1's direct operation has
+			// priority 0, the operation of its child [I1,X] the better
+			// priority -300, the sibling I2 lies in between (-100). Direct
+			// operations go first, so the operation I1 hands out next is the
+			// priority 0 one and I1 must be scored with 0: I2 (1*2^-1) goes
+			// before I1 (1*2^0), and [I1,X] comes after I1's direct one.
+			name: "c04-mixed-depth-prio", props: []string{"C04"}, mixedRouter: true,
+			predeclared: onePQ(),
+			workers:     []workerDecl{w(1, "", "P1", 0)},
+			execs: []execDecl{
+				{name: "I1.p0", platform: "P1", corr: "I1", prio: 0, dur: 1},
+				{name: "I1X.m300", platform: "P1", corr: "I1", tool: "X", prio: -300, dur: 1},
+				{name: "I2.m100", platform: "P1", corr: "I2", prio: -100, dur: 1},
+				{name: "I2Y.m200", platform: "P1", corr: "I2", tool: "Y", prio: -200, dur: 1},
+			},
+			depth: map[string]int{"quick": 5, "thorough": 7}, shards: 4,
+		},
+		{
+			// Priorities from the far ends of the int32 range REv2 allows
+			// (+-200000, and 150000 against 149900): only the DIFFERENCE of
+			// two priorities enters the comparison of two scores, 2^(p/100)
+			// itself is not representable. Started from: W:1 executes an
+			// operation of A since t=0, W:2 one of B since t=1 (so A is the
+			// least recently served one, but has the higher or equal score
+			// wherever the executing workers or the priorities differ).
+			name: "c04-prio-extreme", props: []string{"C04"},
+			predeclared: onePQ(),
+			workers:     []workerDecl{w(1, "", "P1", 0), w(2, "", "P1", 0)},
+			execs: []execDecl{
+				{name: "A.p200000", platform: "P1", corr: "A", tool: "X", prio: 200000, dur: 1},
+				{name: "B.p200000", platform: "P1", corr: "B", tool: "X", prio: 200000, dur: 1},
+				{name: "A.m200000", platform: "P1", corr: "A", tool: "X", prio: -200000, dur: 1},
+				{name: "B.m200000", platform: "P1", corr: "B", tool: "X", prio: -200000, dur: 1},
+				{name: "A.p150000", platform: "P1", corr: "A", tool: "X", prio: 150000, dur: 1},
+				{name: "B.p149900", platform: "P1", corr: "B", tool: "X", prio: 149900, dur: 1},
+			},
+			prefix:   []string{"W:1", "A.p200000", "tick", "W:2", "B.p200000"},
+			maxTicks: 1,
+			depth:    map[string]int{"quick": 4, "thorough": 5}, shards: 4,
 		},
 		{
 			// Priorities 0 and 100: scores can be mathematically equal
